@@ -191,13 +191,14 @@ impl Compiler {
         self.constants.shrink_to_fit();
 
         // instruct GC to stop managing any of the constants
-        // TODO: Implement custom Clone for object instead?
         for c in &self.constants {
             self.gc.untrace(*c);
         }
 
+        // The constants now belong to the bytecode (and to whoever runs it):
+        // a next compilation starts with an empty pool instead of handing them out again
         Ok(Bytecode {
-            constants: self.constants.clone(),
+            constants: std::mem::take(&mut self.constants),
             instructions: std::mem::take(&mut self.instructions),
         })
     }
